@@ -70,6 +70,13 @@ CLAIMED = {
             "Trusted: pysym translator (validated per run), z3/cvc5 FP theories, element-wise numpy models listed per obligation; "
             "QuantizedTime only for a sweep of concrete durations.",
             "DESIGN.md §1 C10"),
+    "C16": ("CrossHair/z3-driven exhaustive exploration of cap registration histories (seed grants, temporary, proxy-only, "
+            "wrapper; two regions; prefix-related URLs) through the real ProxiedRegion/Session/SessionManager and of all "
+            "request/grant subsets through the real Seed request/response rewriting, against a reference model",
+            "Bounded model checking of histories (depth 2 quick / 3 thorough) with solver-enumerated selectors; every "
+            "combination within the bounds is executed on the real code and compared with the model.",
+            "Trusted: CrossHair + z3; cap names/URLs are catalogue constants; llsd formatter constructor run untraced.",
+            "DESIGN.md §1 C16"),
     "C19": ("CrossHair/z3 symbolic execution of the real HippoClientProtocol.datagram_received and Circuit methods from a "
             "symbolic circuit pre-state (ids already seen, next id, retry budget) over <=3 symbolic arrivals / ack forms / "
             "timer rounds, compared with a reference model of the dedupe window and the resend timer",
